@@ -375,7 +375,7 @@ def canon_conditionals(fn: ast.FunctionDef) -> ast.FunctionDef:
 # symbolic straight-line evaluation
 # --------------------------------------------------------------------------
 
-def symbolic_returns(fn: ast.FunctionDef, rewrite=None) -> tuple[list[tuple[ast.AST | None, ast.AST]], dict[str, ast.AST]]:
+def symbolic_returns(fn: ast.FunctionDef, rewrite=None, lenient: bool = False) -> tuple[list[tuple[ast.AST | None, ast.AST]], dict[str, ast.AST]]:
     """Evaluate a straight-line function body symbolically: every local (and every re-assigned parameter) is replaced
     by the expression it holds, so that the names chosen for intermediate values - or whether a parameter is
     overwritten or a fresh name is introduced - do not matter.
@@ -422,6 +422,12 @@ def symbolic_returns(fn: ast.FunctionDef, rewrite=None) -> tuple[list[tuple[ast.
             else:
                 rets.append((None, v))
             break
+        elif lenient and (isinstance(st, ast.Expr) or (isinstance(st, ast.If) and not st.orelse and st.body
+                                                       and isinstance(st.body[-1], ast.Raise))):
+            continue        # a call for its effect (logging) / an argument check: binds nothing
+        elif lenient:
+            for nm in _assigned_names(st):
+                env.pop(nm, None)       # whatever this statement binds is no longer known symbolically
         else:
             raise ValueError(f"statement `{ast.unparse(st)[:80]}`")
     return rets, env
